@@ -212,7 +212,7 @@ func c10Run(w *W) {
 	})
 	seen := map[string]bool{}
 	derivations(w.thorough(), func(name string, texts []string) {
-		if name == "D3" || name == "D2" && !w.thorough() {
+		if name == "D3" || name == "WG" || name == "D2" && !w.thorough() {
 			return
 		}
 		key := strings.Join(texts, "\x00")
